@@ -550,15 +550,18 @@ class Impl:
         from sympy.core.function import AppliedUndef
         sub = {s: sp.Rational(qenv[0].get(str(s), Fraction(0)).numerator, qenv[0].get(str(s), Fraction(0)).denominator)
                for s in expr.free_symbols}
-        try:
-            val = expr.subs(sub, simultaneous=True)
-
-            def fun(x):
-                args = [sp.floor(a) for a in x.args]
-                if not all(a.is_Integer for a in args):
+        def ev(x):
+            if not x.args:
+                return x
+            args = [ev(a) for a in x.args]
+            if isinstance(x, AppliedUndef):
+                fl = [sp.floor(a) for a in args]
+                if not all(a.is_Integer for a in fl):
                     raise ValueError("non-numeric array index")
-                return sp.Integer(std_arr(qenv[1], type(x).__name__, [int(a) for a in args][0::3]))
-            val = val.replace(lambda x: isinstance(x, AppliedUndef), fun)
+                return sp.Integer(std_arr(qenv[1], type(x).__name__, [int(a) for a in fl][0::3]))
+            return x.func(*args)
+        try:
+            val = ev(expr.subs(sub, simultaneous=True))
         except (ZeroDivisionError, ValueError):
             return None
         if val.is_Rational:
@@ -793,6 +796,7 @@ TARGETED = [
     (arr("b", [var("i"), bop("+", var("j"), lit(1))]), arr("b", [var("i"), bop("+", lit(1), var("j"))])),
     (arr("b", [var("i"), var("j")]), arr("b", [var("j"), var("i")])),
     (arr("a", [bop("*", bop("/", var("n"), lit(2)), lit(2))]), arr("a", [var("n")])),
+    (arr("idx", [arr("idx", [var("m")])]), arr("idx", [arr("idx", [bop("+", var("m"), lit(0))])])),
     (bop("+", var("lambda"), lit(1)), bop("+", lit(1), var("lambda"))),
     (bop("-", var("n"), lit(1)), var("n")),
     (neg(bop("*", var("n"), var("m"))), bop("*", neg(var("n")), var("m"))),
@@ -967,6 +971,11 @@ def run(ctx):
                     mine = seval(tr(fixed, e), qenv)
                 except (NonIntExp, OverflowError):
                     ctx.hist("c2_skipped", "non-integer or huge exponent")
+                    continue
+                if mine is None:
+                    # undefined in the model (a zero divisor): sympy's automatic evaluation may have removed the
+                    # singularity (n/n -> 1); the theorems only speak about valuations where the value is defined
+                    ctx.hist("c2_skipped", "model value undefined at this valuation")
                     continue
                 try:
                     real = limited(impl.sympy_value, se, qenv)
